@@ -32,6 +32,7 @@ def run(ctx):
     ctx.guard(rule_b, ctx, ix, f)
     ctx.guard(rule_c, ctx, ix)
     ctx.guard(rule_d, ctx, ix)
+    ctx.guard(rule_e, ctx, ix, f)
 
 
 # ---------------------------------------------------------------------------------------
@@ -446,3 +447,32 @@ def rule_d(ctx, ix):
     R = 'C09.d'
     ctx.describe(R, 'range tests of the selection / region modules are written positively (NaN fails them)', floor=1)
     common.check_nan_safe_ranges(ctx, R, [ix.module('glue.core.subset'), ix.module('glue.core.roi')], floor=8)
+
+
+def rule_e(ctx, ix, f):
+    """A region can be concave or thin: whether a category position lies inside says nothing about its neighbours.  The passes
+    that translate a polygon-like region into per-category selections must look at every category."""
+    from ..util import iterations, short_circuits, elementwise, parent_map as _pm, enclosing
+    R = 'C09.e'
+    ctx.describe(R, 'every category is examined when a polygon-like region is translated (no early exit from the per-category pass)', floor=2)
+    pm = _pm(f.node)
+    n = 0
+    for it, tg, owner, kind in iterations(f.node):
+        ew = elementwise(it, f.node)
+        if ew is None or not ew.source.endswith('categories'):
+            continue
+        n += 1
+        if kind == 'for':
+            exits = [x for x in ast.walk(owner) if isinstance(x, (ast.Break, ast.Return)) and
+                     enclosing(pm, x, (ast.For, ast.While)) is owner]
+            ok = not exits and not ew.filtered
+            how = 'leaves the loop early (`%s`)' % norm(exits[0]) if exits else 'skips part of the categories'
+        else:
+            ok = not short_circuits(pm, owner) and not ew.filtered
+            how = 'stops at the first match'
+        ctx.ob(R, '%s pass over `%s`' % (f.construct, ew.source), 'the pass looks at every category', ok,
+               detail='the pass over `%s` in roi_to_subset_state %s: for a concave or slanted region the categories after a gap (a '
+                      'column the region does not touch) are never examined and their elements are not selected' % (ew.source, how),
+               where=where(f, owner))
+    if n < 2:
+        raise AnalysisError('roi_to_subset_state: only %d per-category passes found' % n)
